@@ -37,3 +37,27 @@ Definition x_all_vclasses := all_vclasses.
 Definition x_all_rclasses := all_rclasses.
 Definition x_vclass_name := vclass_name.
 Definition x_rclass_name := rclass_name.
+
+(* ---- text layer, instantiated on the generic scheme (versions are normalized strings,
+        ordered as Python orders str) ---- *)
+From Coq Require Import Ascii NArith.
+From UV.Base Require Import Order.
+From UV.Py Require Import PyStr.
+From UV.Vers Require Import VersText.
+Definition g_cmp : str -> str -> comparison := cmp_lex (fun a b => N.compare (code a) (code b)).
+Definition g_vctor (s : str) : res str :=
+  let n := lstrip_set (s2l "vV") (remove_spaces s) in
+  if is_empty n then Err EInvalidVersion else Ok n.
+Definition g_vstr (s : str) : str := s.
+Definition g_constraints_from_string := constraints_from_string str g_cmp g_vctor.
+Definition g_constraints_to_string := constraints_to_string str g_cmp g_vstr.
+Definition g_from_string := from_string str g_cmp g_vctor.
+Definition g_constraint_from_string := constraint_from_string str g_vctor.
+Definition x_split_constraint := split_constraint.
+Definition x_py_is_ascii := py_is_ascii.
+Definition x_remove_spaces := remove_spaces.
+Definition x_lower := lower.
+Definition x_split_c := split_c.
+Definition x_strip_set := strip_set.
+Definition x_lstrip_set := lstrip_set.
+Definition x_partition_c := partition_c.
